@@ -64,7 +64,7 @@ func users() []*core.Account {
 // newNode builds a chain whose users hold every holdable denomination. When
 // rg is non-nil it becomes the rvesting genesis and fromExtra is added to the
 // balance of the From account (users[1]) so that InitGenesis can fund the pool.
-func newNode(rg *rvestingtypes.GenesisState, fromExtra sdk.Coins) (n *core.Node, err error) {
+func newNode(rg *rvestingtypes.GenesisState, fromExtra sdk.Coins, bankPool ...sdk.Coin) (n *core.Node, err error) {
 	us := users()
 	mut := func(tp *app.Teleport, gs simapp.GenesisState) {
 		var bg banktypes.GenesisState
@@ -87,6 +87,12 @@ func newNode(rg *rvestingtypes.GenesisState, fromExtra sdk.Coins) (n *core.Node,
 					}
 				}
 			}
+		}
+		if len(bankPool) > 0 {
+			// the pool's balance comes from the bank genesis alone: no account record exists for the module address
+			bg.Balances = append(bg.Balances, banktypes.Balance{Address: poolAddr.String(), Coins: sdk.NewCoins(bankPool...)})
+			bg.Supply = bg.Supply.Add(bankPool...)
+			bg.Balances = banktypes.SanitizeGenesisBalances(bg.Balances)
 		}
 		gs[banktypes.ModuleName] = tp.AppCodec().MustMarshalJSON(&bg)
 		if rg != nil {
@@ -378,7 +384,11 @@ func (x *runner) runSeq(caseID string, pl *plan) (res seqResult) {
 			return
 		}
 		var err error
-		n, err = newNode(rg, fromExtra)
+		var bankPool sdk.Coins
+		if pl.GenesisBank && !pl.GenesisFrom {
+			bankPool = poolCoins
+		}
+		n, err = newNode(rg, fromExtra, bankPool...)
 		if err != nil {
 			// InitGenesis re-validates through SetParamSet; a refusal there means the value is outside the domain
 			r.Count("genesis_initchain_refused", 1)
@@ -388,9 +398,12 @@ func (x *runner) runSeq(caseID string, pl *plan) (res seqResult) {
 		r.Count("nodes_built", 1)
 		r.Count("histories_from_genesis", 1)
 		m.P = pl.Init
-		if pl.GenesisFrom {
+		if pl.GenesisFrom || pl.GenesisBank {
 			for _, c := range poolCoins {
 				m.Pool.add(c.Denom, c.Amount)
+			}
+			if pl.GenesisBank && !pl.GenesisFrom && !poolCoins.IsZero() {
+				r.Count("histories_with_pool_from_bank_genesis_only", 1)
 			}
 		}
 		if !storedParamsMatch(n, preCtx(n), m.P) {
